@@ -351,7 +351,12 @@ pub(crate) fn compute_contract_weights(
                     return Err(ContractError::Unauthorized);
                 }
                 Ok((earliest_epoch_id, weight)) => {
-                    // some weight was recorded for the contract in the past, start from there
+                    // some weight was recorded for the contract, start from there. If that first
+                    // record is for an epoch after start_from_epoch, it is itself one of the epochs
+                    // being computed, so it has to be part of the result
+                    if earliest_epoch_id > *start_from_epoch {
+                        contract_weights.insert(earliest_epoch_id, weight);
+                    }
                     (earliest_epoch_id, weight)
                 }
             }
